@@ -110,6 +110,7 @@ class Interp(object):
         self.depth = 0
         self.max_depth = 120
         self.max_loop = 5000
+        self.merge_ifs = False   # opt-in state merging of simple if statements
         self.no_interp = set()  # function objects to run natively although in repo
         from . import summaries
         summaries.install(self)
@@ -564,10 +565,58 @@ class Interp(object):
                 raise Unsupported('del target')
 
     def x_If(self, s, frame):
-        if self.truth(self.eval(s.test, frame)):
+        c = self.eval(s.test, frame)
+        if self.merge_ifs and isinstance(c, (SBool, SInt)) and _mergeable(s):
+            if self._merged_if(s, c, frame):
+                return
+        if self.truth(c):
             self.exec_block(s.body, frame)
         else:
             self.exec_block(s.orelse, frame)
+
+    def _merged_if(self, s, c, frame):
+        """State merging for `if c: <assignments to local ints> [else: ...]`.
+
+        Both arms are evaluated on copies of the local scope and the integer/boolean
+        results combined with if-then-else terms, so the path does not fork. Only arms made
+        of assignments of call-free expressions to plain names qualify (_mergeable); any
+        exception or non-integer result falls back to ordinary forking.
+        """
+        if isinstance(c, SInt):
+            c = c != 0
+            if not isinstance(c, SBool):
+                return False
+        saved = frame.locals
+        arms = []
+        try:
+            for body in (s.body, s.orelse):
+                frame.locals = dict(saved)
+                E = sym.engine()
+                pos, ntrace = E.pos, len(E.trace)
+                self.exec_block(body, frame)
+                if E.pos != pos or len(E.trace) != ntrace:
+                    return False        # an arm forked: do not merge
+                arms.append(frame.locals)
+        except EngineError:
+            raise
+        except Exception:
+            return False
+        finally:
+            frame.locals = saved
+        lt, le = arms
+        merged = {}
+        for name in set(lt) | set(le):
+            if name not in lt or name not in le:
+                return False
+            a, b = lt[name], le[name]
+            if a is b:
+                continue
+            if isinstance(a, (int, SInt, SBool)) and isinstance(b, (int, SInt, SBool)):
+                merged[name] = sym.If(c, a, b)
+            else:
+                return False
+        saved.update(merged)
+        return True
 
     def x_While(self, s, frame):
         h = self.loop_hook(s, frame)
@@ -1135,6 +1184,32 @@ class Interp(object):
         raise Unsupported('yield in expression position')
 
     e_YieldFrom = e_Yield
+
+
+_PURE = (ast.BinOp, ast.UnaryOp, ast.Compare, ast.BoolOp, ast.IfExp, ast.Name, ast.Constant,
+         ast.Load, ast.Store, ast.operator, ast.unaryop, ast.cmpop, ast.boolop, ast.Attribute)
+
+def _mergeable(s):
+    for body in (s.body, s.orelse):
+        for st in body:
+            if isinstance(st, ast.Pass):
+                continue
+            if isinstance(st, ast.Assign):
+                if not all(isinstance(t, ast.Name) for t in st.targets):
+                    return False
+                val = st.value
+            elif isinstance(st, ast.AugAssign):
+                if not isinstance(st.target, ast.Name):
+                    return False
+                val = st.value
+            else:
+                return False
+            for n in ast.walk(val):
+                if not isinstance(n, _PURE):
+                    return False
+                if isinstance(n, ast.Attribute) and not (isinstance(n.value, ast.Name) and n.value.id == 'self'):
+                    return False
+    return True
 
 
 def _contains_yield(node):
